@@ -509,3 +509,47 @@ pub fn image_near_misses(rng: &mut Rng, g: &TermGen) -> Vec<(Term, Term)> {
     }
     out
 }
+
+/// Pairs of atoms that differ in the constructor only and report the same name (`A` / `$A` / `#A` / `?A` / `^A`, the
+/// interval `+7` / the word `7`, the placeholder / a word named "" or "_"): "same constructor" is part of equality
+/// wherever the atom stands -- a comparison that goes through the names conflates them.
+pub fn atom_kind_near_misses(rng: &mut Rng, g: &TermGen) -> Vec<(Term, Term)> {
+    let n = g.name(rng);
+    let k = rng.below(1000);
+    let named: Vec<Term> = vec![
+        Term::new_word(n.clone()),
+        Term::new_variable_independent(n.clone()),
+        Term::new_variable_dependent(n.clone()),
+        Term::new_variable_query(n.clone()),
+        Term::new_operator(n.clone()),
+    ];
+    let mut out = vec![];
+    for i in 0..named.len() {
+        for j in i + 1..named.len() {
+            out.push((named[i].clone(), named[j].clone()));
+        }
+    }
+    out.push((Term::new_interval(k), Term::new_word(k.to_string())));
+    out.push((Term::new_interval(k), Term::new_operator(k.to_string())));
+    out.push((Term::new_interval(k), Term::new_variable_query(format!("+{}", k))));
+    out.push((Term::Placeholder, Term::new_word("")));
+    out.push((Term::Placeholder, Term::new_word("_")));
+    out.push((Term::Placeholder, Term::new_variable_dependent("")));
+    out
+}
+
+/// `x` and `y` placed at the same position of otherwise identical component lists of constructor `kind`
+/// (None when the constructor cannot be built over three components / two operands)
+pub fn same_context(kind: usize, rng: &mut Rng, g: &TermGen, x: &Term, y: &Term) -> Option<(Term, Term)> {
+    let fixed1 = kind == 18;
+    let fixed2 = matches!(kind, 11 | 12 | 21..=29);
+    let len = if fixed1 { 1 } else if fixed2 { 2 } else { rng.range(1, 3) };
+    let pos = rng.below(len);
+    let mut v: Vec<Term> = (0..len).map(|_| g.term(rng, 3)).collect();
+    let idx = rng.range(0, len);
+    v[pos] = x.clone();
+    let a = compound_of(kind, idx, &v)?;
+    v[pos] = y.clone();
+    let b = compound_of(kind, idx, &v)?;
+    Some((a, b))
+}
